@@ -72,8 +72,8 @@ func init() {
 				for j := 0; j < len(c12Points); j += 3 {
 					bs = append(bs, core.Batch{Name: fmt.Sprintf("enum-%d-%d", i, j/3), TimeoutS: 900, Params: core.Params(c12Params{Kind: "enum", Cfg: cf, Points: c12Points[j:minInt(j+3, len(c12Points))]})})
 				}
-				bs = append(bs, core.Batch{Name: fmt.Sprintf("random-%d", i), TimeoutS: 900, Params: core.Params(c12Params{Kind: "random", Cfg: cf, N: tierPick(tier, 8, 150)})})
-				bs = append(bs, core.Batch{Name: fmt.Sprintf("double-%d", i), TimeoutS: 900, Params: core.Params(c12Params{Kind: "double", Cfg: cf, N: tierPick(tier, 4, 40)})})
+				bs = append(bs, core.Batch{Name: fmt.Sprintf("random-%d", i), TimeoutS: 900, Params: core.Params(c12Params{Kind: "random", Cfg: cf, N: tierPick(tier, 8, 400)})})
+				bs = append(bs, core.Batch{Name: fmt.Sprintf("double-%d", i), TimeoutS: 900, Params: core.Params(c12Params{Kind: "double", Cfg: cf, N: tierPick(tier, 4, 120)})})
 			}
 			return bs
 		},
